@@ -80,11 +80,13 @@ def backup (s : Scan) : Scan := { s with pos := s.pos - 1 }
 /-- `peek(k)`: `"\0"` past the end -/
 def peek (s : Scan) (k : Nat := 0) : Char := s.input.getD (s.pos + k) '\x00'
 
+/-- the test of `accept(candidates, negate)`: `ch in candidates`, negated on request -/
+def acceptTest (s : Scan) (cands : List Char) (negate : Bool) : Bool :=
+  if negate then !(cands.contains s.peek) else cands.contains s.peek
+
 /-- `accept(candidates, negate)` -/
 def accept (s : Scan) (cands : List Char) (negate : Bool := false) : Scan × Bool :=
-  let r := cands.contains s.peek
-  let r := if negate then !r else r
-  if r then ((s.next).1, true) else (s, false)
+  if s.acceptTest cands negate then ((s.next).1, true) else (s, false)
 
 /-- `accept_prefix(prefix)` -/
 def acceptPrefix (s : Scan) (pre : List Char) : Scan × Bool :=
@@ -156,9 +158,8 @@ def quotedLoop (posErr : Err) : Nat → Scan → Option Char → SR
     if c == some '\'' then .ok s
     else if c == some '\n' || c == none then .error (posErr, s)
     else
-      let s := if c == some '\\' && s.peek == '\'' then (s.next).1 else s
-      let (s, c') := s.next
-      quotedLoop posErr n s c'
+      quotedLoop posErr n ((if c == some '\\' && s.peek == '\'' then (s.next).1 else s).next).1
+        ((if c == some '\\' && s.peek == '\'' then (s.next).1 else s).next).2
 
 /-- `lex_quoted_string` -/
 def lexQuotedString (s : Scan) : SR := do
@@ -295,18 +296,15 @@ def lexKeyword (cfg : ScanCfg) (s : Scan) : SR := do
 def lineCommentLoop : Nat → Scan → SR
   | 0, s => .error (.outOfFuel, s)
   | n+1, s =>
-    let (s', c) := s.next
-    if c == some '\n' || c == none then .ok s' else lineCommentLoop n s'
+    if (s.next).2 == some '\n' || (s.next).2 == none then .ok (s.next).1 else lineCommentLoop n (s.next).1
 
 /-- `while not s.accept_prefix("*/"): if s.next() is None: raise` -/
 def blockCommentLoop : Nat → Scan → SR
   | 0, s => .error (.outOfFuel, s)
   | n+1, s =>
-    let (s1, a) := s.acceptPrefix ['*', '/']
-    if a then .ok s1
-    else
-      let (s2, c) := s.next
-      if c == none then .error (s2.err "Unterminated Comment", s2) else blockCommentLoop n s2
+    if (s.acceptPrefix ['*', '/']).2 then .ok (s.acceptPrefix ['*', '/']).1
+    else if (s.next).2 == none then .error ((s.next).1.err "Unterminated Comment", (s.next).1)
+    else blockCommentLoop n (s.next).1
 
 /-- `lex_initial` -/
 def lexInitial (cfg : ScanCfg) (s : Scan) : SR := do
